@@ -166,7 +166,12 @@ def run(tier, replay=None):
         for d in range(n_ds):
             tmp = tempfile.mkdtemp(prefix="c03_")
             try:
-                ds = synth.make_dataset(r, tmp, n_samples=2, n_loci=3, ploidies=(2, 4), max_snvs=3)
+                # equal ploidy, shallow reads (the prior matters) and a DIFFERENT inbreeding coefficient per sample
+                ds = synth.make_dataset(r, tmp, n_samples=3, n_loci=3, ploidies=(4,), max_snvs=3, depth=(2, 5))
+                inb = tmp + "/inbreeding.tsv"
+                with open(inb, "w") as fh:
+                    for s_, f_ in zip(ds.samples, [0.0, 0.3, 0.7, 0.1, 0.5]):
+                        fh.write(f"{s_}\t{f_}\n")
                 out, rc, err = synth.run_program(ds.assemble_argv("--mcmc-steps", "300", "--mcmc-burn", "100", "--mcmc-seed", "11"))
                 if rc != 0:
                     chk.notes.append(f"assemble failed on the synthetic data set: {err[:200]}")
@@ -176,7 +181,7 @@ def run(tier, replay=None):
                 sets = [(), ("GP",), ("GL",), ("AFP", "GP"), ("AOP", "ACP")]
                 for rs in sets:
                     extra = ["--report", *rs] if rs else []
-                    o, rc2, e2 = synth.run_program(ds.call_argv("call-exact", hap, *extra))
+                    o, rc2, e2 = synth.run_program(ds.call_argv("call-exact", hap, "--inbreeding", inb, *extra))
                     chk.count("cli:call-exact")
                     if rc2 != 0:
                         chk.violation("call-exact fails with a --report set", {"report": rs, "error": e2[:300]}, "C03/cli/crash")
@@ -189,11 +194,12 @@ def run(tier, replay=None):
                         continue
                     for rb, rr in zip(base, recs):
                         for sb, sr in zip(rb["samples"], rr["samples"]):
-                            for key in ("GT", "GPM", "SPM"):
+                            for key in ("GT", "GPM", "SPM", "AFP", "ACP", "AOP"):
                                 if key in sb and key in sr and sb[key] != sr[key]:
                                     # allow float32 rounding at the third decimal
                                     try:
-                                        if abs(float(sb[key]) - float(sr[key])) <= 0.0011:
+                                        xs = [float(x) for x in sb[key].split(",")]; ys = [float(x) for x in sr[key].split(",")]
+                                        if len(xs) == len(ys) and all(abs(x - y) <= 0.0011 for x, y in zip(xs, ys)):
                                             chk.count("cli:rounding-difference")
                                             continue
                                     except ValueError:
